@@ -131,7 +131,7 @@ class Unit:
                  cbmc_flags=(), backend="sat", loop_contracts=False, bounded=None,
                  timeout=None, functions=(), mode="BIT", replay=None, note="",
                  clause="", canary=True, mem_gb=None, object_bits=None, assumptions=(),
-                 tier="quick", no_checks=False, expect_fail=None):
+                 tier="quick", no_checks=False, expect_fail=None, best_effort=False):
         self.name = name
         self.src = src
         self.entry = entry
@@ -155,6 +155,7 @@ class Unit:
         self.assumptions = list(assumptions)
         self.tier = tier
         self.no_checks = no_checks
+        self.best_effort = best_effort  # a timeout is recorded as 'not decided' instead of making the check undecided (refutation search only)
         self.expect_fail = expect_fail  # property-description substring that MUST fail (canary units)
         # results
         self.status = None      # 'pass' | 'fail' | 'undecided'
@@ -540,6 +541,8 @@ def run_unit(u, bdir):
     except Undecided as e:
         u.status = "undecided"
         u.reason = str(e)
+        if u.best_effort and "timeout" in u.reason:
+            u.status = "skipped"
     u.seconds = time.time() - t0
     return u
 
@@ -551,7 +554,7 @@ def run_units(units, bdir, jobs=JOBS):
         futs = [ex.submit(run_unit, u, bdir) for u in units]
         for f in cf.as_completed(futs):
             u = f.result()
-            tag = {"pass": "ok  ", "fail": "FAIL", "undecided": "??  "}[u.status]
+            tag = {"pass": "ok  ", "fail": "FAIL", "undecided": "??  ", "skipped": "--  "}[u.status]
             print("  [%s] %-44s %3d obligations %6.1fs %s %s" % (
                 tag, u.name, len(u.obligations), u.seconds, u.backend,
                 ("- " + u.reason[:300]) if u.reason else ""), flush=True)
@@ -655,6 +658,8 @@ def finish(prop, tier, units, t0, extra_cov=None, assumptions=(), not_covered=()
         if u.status == "undecided":
             undecided.append(u)
             continue
+        if u.status == "skipped":
+            continue
         for ob in u.obligations:
             if u.bounded:
                 n_bounded += 1
@@ -711,6 +716,7 @@ def finish(prop, tier, units, t0, extra_cov=None, assumptions=(), not_covered=()
         "bounded_obligations_not_counted": n_bounded,
         "bounded": [{"unit": u.name, "bound": u.bounded} for u in units if u.bounded],
         "undecided_units": [{"unit": u.name, "reason": u.reason[:500]} for u in undecided],
+        "refutation_search_only_not_decided": [{"unit": u.name, "clause": u.clause, "reason": u.reason[:200]} for u in units if u.status == "skipped"],
         "not_covered_clauses": list(not_covered),
         "samples": samples or [{"note": "no obligations"}],
         "solver_seconds_total": round(sum(u.seconds for u in units), 1),
@@ -727,7 +733,10 @@ def finish(prop, tier, units, t0, extra_cov=None, assumptions=(), not_covered=()
     ev = {"property_id": prop, "tier": tier, "seed": seed, "level": level, "coverage": cov,
           "assumptions": asm, "wall_s": round(wall, 2),
           "violations": len(viol_lines)}
-    json.dump(ev, open(os.path.join(VERIF, "evidence", prop + ".json"), "w"), indent=1)
+    # runs against a scratch copy of the repository (VERIF_REPO) never overwrite the committed evidence
+    evdir = os.path.join(VERIF, "evidence") if os.path.realpath(REPO) == "/repo" else os.path.join(BUILD, "evidence_scratch")
+    os.makedirs(evdir, exist_ok=True)
+    json.dump(ev, open(os.path.join(evdir, prop + ".json"), "w"), indent=1)
     for l in known_lines:
         print(l)
     if undecided:
